@@ -207,8 +207,15 @@ func c11History(r *core.Run, ci int64) {
 					}
 					return b
 				}
-				return []simnet.Item{{Data: simnet.PacketData(54460, ref.ServerDataCode, blk(0), false, 0)}, {Data: simnet.PacketData(54460, ref.ServerDataCode, blk(3), false, 0)},
-					{Data: simnet.PacketData(54460, ref.ServerDataCode, blk(2), false, 0)}, {Data: simnet.PacketProgress(54460, ref.Progress{Rows: 5})}, {Data: simnet.PacketEnd()}}
+				z := q.Compression == 1
+				return []simnet.Item{{Data: simnet.PacketData(54460, ref.ServerDataCode, blk(0), z, ref.MethodZSTD)}, {Data: simnet.PacketData(54460, ref.ServerDataCode, blk(3), z, ref.MethodZSTD)},
+					{Data: simnet.PacketData(54460, ref.ServerDataCode, blk(2), z, ref.MethodZSTD)}, {Data: simnet.PacketProgress(54460, ref.Progress{Rows: 5})}, {Data: simnet.PacketEnd()}}
+			}
+			if q.Compression == 1 {
+				// a (zero-row) result header inside a ZSTD frame: every connection's receiver goes
+				// through the decompressor, the first ones concurrently
+				hdr := &ref.Block{Info: ref.BlockInfo{Bucket: -1}, Cols: []ref.Col{{Name: "a", Type: "UInt32"}}}
+				return []simnet.Item{{Data: simnet.PacketData(54460, ref.ServerDataCode, hdr, true, ref.MethodZSTD)}, {Data: simnet.PacketProgress(54460, ref.Progress{Rows: 1})}, {Data: simnet.PacketEnd()}}
 			}
 			return []simnet.Item{{Data: simnet.PacketProgress(54460, ref.Progress{Rows: 1})}, {Data: simnet.PacketEnd()}}
 		}
@@ -238,6 +245,9 @@ func c11History(r *core.Run, ci int64) {
 	// which belongs to the caller
 	baseSettings := append(make([]ch.Setting, 0, 8), ch.SettingInt("max_block_size", 1000))
 	opts := chpool.Options{ClientOptions: ch.Options{Dialer: dialer, ReadTimeout: 300 * time.Millisecond, Address: "sim:9000", Settings: baseSettings}, MaxConns: int32(maxConns), HealthCheckPeriod: time.Hour}
+	if ci%2 == 1 {
+		opts.ClientOptions.Compression = ch.CompressionZSTD
+	}
 	switch class {
 	case "destroy-on-release":
 		opts.MaxConnLifetime = time.Nanosecond
